@@ -1231,3 +1231,10 @@ def _patch_truth():
 
 
 _patch_truth()
+
+
+def py_pow_spec(a, b):
+    """spec-level power on (symbolic) numbers: the uninterpreted IEEE power function the code is modelled with"""
+    a, b = num(lift(a)), num(lift(b))
+    USED_UFS.add('py_pow')
+    return Sym(S.POW(to_real(a), to_real(b)), 'real')
